@@ -246,6 +246,20 @@ pub fn check_case(c: &XzCase, prop: &str, rep: &mut Report) -> bool {
                 fragsets.push(vec![k.max(1), 2, n]);
             }
         }
+        // a source that is interrupted once (ErrorKind::Interrupted) right where the first stream ends: whether the
+        // decoder retries or gives the error back, what follows the stream is still there
+        if !f.trailing.is_empty() {
+            for frags in [vec![], vec![1usize]] {
+                let mut src = crate::d_reader::LogSrc::new(&lay.bytes, frags.clone(), false);
+                src.interrupt_at = Some(n - f.trailing.len());
+                let mut out = vec![];
+                let r = crate::io::catch(|| lzma_rs::xz_decompress(&mut src, &mut out).is_ok());
+                if matches!(r, crate::io::Caught::Done(true)) {
+                    vs.push(format!("accepted when the source is interrupted once at the end of the first stream (fragments {:?}) although {} bytes follow it", frags, f.trailing.len()));
+                    break;
+                }
+            }
+        }
         for frags in fragsets {
             let mut src = crate::d_reader::LogSrc::new(&lay.bytes, frags.clone(), false);
             let mut out = vec![];
